@@ -987,3 +987,24 @@ func (bc *boundsClient) fieldInvariants(st *State, br *Term) {
 	want := mk("bin", "+", types.Typ[types.Int], three, tConst("2", nil))
 	st.setFact(tEq(rb, want), true)
 }
+
+// provedLt: a < b follows from the path's order facts by linear reasoning
+// (the bounds engine's prover over the same fact representation).
+func provedLt(st *State, a, b *Term) bool {
+	if st.truth(tLt(a, b)) == 1 {
+		return true
+	}
+	bc := &boundsClient{arrLen: map[string]int64{}, dropped: map[string]map[string]bool{}}
+	goal := bc.lin(st, a).add(bc.lin(st, b), -1)
+	goal.c++ // a - b + 1 <= 0
+	return bc.prove(st, goal)
+}
+
+// provedLe: a <= b.
+func provedLe(st *State, a, b *Term) bool {
+	if st.truth(tLt(b, a)) == 0 {
+		return true
+	}
+	bc := &boundsClient{arrLen: map[string]int64{}, dropped: map[string]map[string]bool{}}
+	return bc.prove(st, bc.lin(st, a).add(bc.lin(st, b), -1))
+}
